@@ -786,7 +786,11 @@ class VBSClusteringManager:
             # Extract radius from circular bounding box if present
             bbox = vci.get("clusterBoundingBoxShape")
             radius: Optional[float] = None
-            if bbox and "circular" in bbox:
+            if isinstance(bbox, tuple):
+                # CHOICE as produced by the ASN.1 decoder: (alternative name, value)
+                if bbox[0] == "circular":
+                    radius = float(bbox[1].get("radius", vam_constants.MAX_CLUSTER_DISTANCE))
+            elif bbox and "circular" in bbox:
                 radius = float(bbox["circular"].get("radius", vam_constants.MAX_CLUSTER_DISTANCE))
 
             self._nearby_clusters[c_id] = _NearbyCluster(
